@@ -27,7 +27,7 @@ func init() {
 	props["C11"] = &propDef{
 		header:    "From BE Require Import Corr.CheckC11.",
 		headers:   map[string]string{"E": "From BE Require Import Corr.CheckE2E.", "R": "From BE Require Import Corr.CheckRr."},
-		rule:      "exhaustive boundary grid (doc in 24 boundary values x idx,size in 11 boundary values) plus seeded random triples, entry pairs, roaring pairs and casts; through build and retrieval: every boundary id alone and together with the other in-range boundary ids as documents of 1..4 conjunctions (include-only, exclude-only, mixed) on the k-groups and compact indexes (Retrieve and the recording collector) and on the roaring index (Retrieve, RetrieveDocs, GetRawResult, WithHint with the extreme ids), ids just outside the range offered to AddDocument; documents of 255, 256, 257 and 300 conjunctions (positions at and beyond the last encodable one); conjunctions of 127..255 include fields sharing posting lists with small ones; a case is non-trivial when the ids involved are accepted and non-zero (conj/rr), when both conjunction ids are < 2^60 (entry), always for casts, when some retrieval returns a non-empty proper subset (through retrieval); distinct = distinct input",
+		rule:      "exhaustive boundary grid (doc in 24 boundary values x idx,size in 11 boundary values) plus seeded random triples, entry pairs, roaring pairs and casts; through build and retrieval: every boundary id alone and together with the other in-range boundary ids as documents of 1..4 conjunctions (include-only, exclude-only, mixed) on the k-groups and compact indexes (Retrieve and the recording collector) and on the roaring index (Retrieve, RetrieveDocs, GetRawResult, WithHint with the extreme ids), ids just outside the range offered to AddDocument; documents of 255, 256, 257 and 300 conjunctions (positions at and beyond the last encodable one); conjunctions of 127..255 include fields sharing posting lists with small ones; a third of the non-batch roaring cases and a dedicated case with ids 2^53+1 .. 2^55-1 add every document decoded from its own JSON encoding (the id a plain JSON number); a case is non-trivial when the ids involved are accepted and non-zero (conj/rr), when both conjunction ids are < 2^60 (entry), always for casts, when some retrieval returns a non-empty proper subset (through retrieval); distinct = distinct input",
 		shardSize: 1500,
 		gen: func(tier string, r *Rand, add func(in interface{})) {
 			for _, d := range docs {
@@ -216,6 +216,7 @@ func c11Retrieval(tier string, r *Rand, ids []int64, add func(in interface{})) {
 					c.Batch = len(c.Docs)
 				}
 			}
+			c.ViaJSON = c.Batch == 0 && emitted%3 == 1 // a third of the others: each document decoded from its own JSON encoding (the id a plain JSON number)
 			for i, q := range queries() {
 				c.Ops = append(c.Ops, rOp{S: 0, Op: "reset"})
 				if i%4 == 3 {
@@ -251,6 +252,21 @@ func c11Retrieval(tier string, r *Rand, ids []int64, add func(in interface{})) {
 				}
 			}
 			emit(docs)
+		}
+		// ids no float64 holds exactly (2^53 < |id| <= 2^55-1), next to their float64 neighbours, in documents decoded from JSON
+		if kind == "rr" {
+			var docs []eDoc
+			for k, d := range []int64{1<<53 + 1, 1 << 53, 1<<54 + 3, -(1<<53 + 1), 1<<55 - 2, 1<<55 - 1, -(1<<55 - 1), 1<<54 + 2} {
+				docs = append(docs, eDoc{ID: d, Cons: []eConj{{{F: 0, Inc: true, V: ivs(100 + k)}}, {{F: 1, Inc: true, V: ivs(k % 3)}}}})
+			}
+			for _, via := range []bool{true, false} {
+				c := rCase{Fields: []rField{{F: 0, Cont: "default"}, {F: 1, Cont: "default"}}, Docs: docs, ViaJSON: via}
+				for k := range docs {
+					c.Ops = append(c.Ops, rOp{S: 0, Op: "reset"}, rOp{S: 0, Op: []string{"retrieve", "docs"}[k%2], A: []eAssign{{F: 0, V: iv(100 + k)}}}, rOp{S: 0, Op: "raw"})
+				}
+				c.Ops = append(c.Ops, rOp{S: 0, Op: "reset"}, rOp{S: 0, Op: "hint", Hint: []int64{1<<53 + 1, 1<<55 - 2}}, rOp{S: 0, Op: "docs", A: []eAssign{{F: 1, V: ivs(0, 1, 2)}}}, rOp{S: 0, Op: "raw"})
+				add(c)
+			}
 		}
 		// conjunction positions at and beyond the limit (position 255 is the last encodable one): documents
 		// of 255, 256, 257 and 300 conjunctions, each conjunction matched by its own value
